@@ -77,11 +77,36 @@ inline void EmitCalls(JsonOut& o, const std::vector<Call>& calls) {
 // ---------------------------------------------------------------------------
 // Reader implementations (real library classes behind a virtual interface).
 
+// Block transfers keep the element width the codec used: the library's reader / writer classes are templates on the
+// element type, and what they do with a count of elements (rather than bytes) is part of what is observed.
+template <typename R>
+St TypedRead(R& r, void* p, size_t nbytes, size_t width) {
+  switch (width) {
+    case 2: { auto* b = static_cast<uint16_t*>(p); return r.Read(b, b + nbytes / 2); }
+    case 4: { auto* b = static_cast<uint32_t*>(p); return r.Read(b, b + nbytes / 4); }
+    case 8: { auto* b = static_cast<uint64_t*>(p); return r.Read(b, b + nbytes / 8); }
+    default: { auto* b = static_cast<uint8_t*>(p); return r.Read(b, b + nbytes); }
+  }
+}
+template <typename W>
+St TypedWrite(W& w, const void* p, size_t nbytes, size_t width) {
+  switch (width) {
+    case 2: { auto* b = static_cast<const uint16_t*>(p); return w.Write(b, b + nbytes / 2); }
+    case 4: { auto* b = static_cast<const uint32_t*>(p); return w.Write(b, b + nbytes / 4); }
+    case 8: { auto* b = static_cast<const uint64_t*>(p); return w.Write(b, b + nbytes / 8); }
+    default: { auto* b = static_cast<const uint8_t*>(p); return w.Write(b, b + nbytes); }
+  }
+}
+template <typename T>
+constexpr size_t WidthOf() {
+  return (sizeof(T) == 2 || sizeof(T) == 4 || sizeof(T) == 8) && alignof(T) >= sizeof(T) ? sizeof(T) : 1;
+}
+
 struct RImpl {
   virtual ~RImpl() {}
   virtual St Ensure(size_t n) = 0;
   virtual St Read1(uint8_t* b) = 0;
-  virtual St ReadN(void* p, size_t nbytes) = 0;
+  virtual St ReadN(void* p, size_t nbytes, size_t width) = 0;
   virtual St Skip(size_t n) = 0;
   virtual bool HasSkip() const { return true; }
   virtual St ReadPadding() { return nop::ErrorStatus::DebugError; }
@@ -96,10 +121,7 @@ struct RDirect : RImpl {
   explicit RDirect(A&&... a) : r(std::forward<A>(a)...) {}
   St Ensure(size_t n) override { return r.Ensure(n); }
   St Read1(uint8_t* b) override { return r.Read(b); }
-  St ReadN(void* p, size_t n) override {
-    uint8_t* b = static_cast<uint8_t*>(p);
-    return r.Read(b, b + n);
-  }
+  St ReadN(void* p, size_t n, size_t width) override { return TypedRead(r, p, n, width); }
   St Skip(size_t n) override { return r.Skip(n); }
 };
 
@@ -110,7 +132,7 @@ struct RSparse : RImpl {
   RSparse(const uint8_t* d, size_t len) : data(d), n(len) {}
   St Ensure(size_t) override { return {}; }
   St Read1(uint8_t* b) override { *b = pos < n ? data[pos] : 0; pos++; return {}; }
-  St ReadN(void* p, size_t nbytes) override {
+  St ReadN(void* p, size_t nbytes, size_t) override {
     uint8_t* b = static_cast<uint8_t*>(p);
     for (size_t i = 0; i < nbytes; i++) b[i] = (pos + i) < n ? data[pos + i] : 0;
     pos += nbytes;
@@ -124,10 +146,7 @@ struct RFd : RImpl {
   explicit RFd(int fd) : r(fd) {}
   St Ensure(size_t n) override { return r.Ensure(n); }
   St Read1(uint8_t* b) override { return r.Read(b); }
-  St ReadN(void* p, size_t n) override {
-    uint8_t* b = static_cast<uint8_t*>(p);
-    return r.Read(b, b + n);
-  }
+  St ReadN(void* p, size_t n, size_t width) override { return TypedRead(r, p, n, width); }
   St Skip(size_t) override { return nop::ErrorStatus::DebugError; }
   bool HasSkip() const override { return false; }
 };
@@ -140,10 +159,7 @@ struct RBounded : RImpl {
   RBounded(size_t limit, A&&... a) : inner(std::forward<A>(a)...), b(&inner, limit) {}
   St Ensure(size_t n) override { return b.Ensure(n); }
   St Read1(uint8_t* p) override { return b.Read(p); }
-  St ReadN(void* p, size_t n) override {
-    uint8_t* q = static_cast<uint8_t*>(p);
-    return b.Read(q, q + n);
-  }
+  St ReadN(void* p, size_t n, size_t width) override { return TypedRead(b, p, n, width); }
   St Skip(size_t n) override { return SkipImpl(n, std::integral_constant<bool, kHasSkip>{}); }
   St ReadPadding() override { return PadImpl(std::integral_constant<bool, kHasSkip>{}); }
   bool HasSkip() const override { return kHasSkip; }
@@ -159,6 +175,20 @@ struct RBounded : RImpl {
 
 // Creates an fd from which exactly |n| bytes of |data| can be read and then EOF.
 int MakeReadFd(const uint8_t* data, size_t n);
+
+// Descriptors on which the environment interrupts and shortens system calls, as signal handlers installed without
+// SA_RESTART and sockets do: every third read() / write() on a marked descriptor fails with EINTR before transferring
+// anything, the others transfer at most 1..3 bytes.  (The executor's own read / write symbols sit in front of libc's;
+// they are left out of the ThreadSanitizer build, whose interceptors model the synchronisation through pipes.)
+void MarkFlakyFd(int fd);
+void UnmarkFlakyFd(int fd);
+struct FlakyFdScope {
+  int fd;
+  FlakyFdScope(int f, bool on) : fd(on ? f : -1) { if (fd >= 0) MarkFlakyFd(fd); }
+  ~FlakyFdScope() { if (fd >= 0) UnmarkFlakyFd(fd); }
+  FlakyFdScope(const FlakyFdScope&) = delete;
+  FlakyFdScope& operator=(const FlakyFdScope&) = delete;
+};
 
 // A pipe whose producer delivers the data in bursts: the next burst is written only after the reader has
 // drained the previous one, so block reads see short reads in the middle of the data (as on sockets / ttys).
@@ -217,7 +247,7 @@ class DynReader {
     const size_t nbytes = static_cast<size_t>(end - begin) * sizeof(T);
     St st;
     if (Pre("rn", nbytes, &st)) return st;
-    st = impl_->ReadN(static_cast<void*>(begin), nbytes);
+    st = impl_->ReadN(static_cast<void*>(begin), nbytes, WidthOf<T>());
     Observe(nbytes, st);
     return Post(st, nbytes);
   }
@@ -332,6 +362,7 @@ class DynReader {
   Call cur_{};
   std::string tmpfile_;
   std::unique_ptr<BurstFeeder> feeder_;
+  int flaky_fd_ = -1;
 };
 
 // ---------------------------------------------------------------------------
@@ -341,7 +372,7 @@ struct WImpl {
   virtual ~WImpl() {}
   virtual St Prepare(size_t n) = 0;
   virtual St Write1(uint8_t b) = 0;
-  virtual St WriteN(const void* p, size_t nbytes) = 0;
+  virtual St WriteN(const void* p, size_t nbytes, size_t width) = 0;
   virtual St Skip(size_t n, uint8_t pad) = 0;
   virtual bool HasSkip() const { return true; }
   virtual St WritePadding(uint8_t) { return nop::ErrorStatus::DebugError; }
@@ -355,10 +386,7 @@ struct WRef : WImpl {
   explicit WRef(W* p) : w(p) {}
   St Prepare(size_t n) override { return w->Prepare(n); }
   St Write1(uint8_t b) override { return w->Write(b); }
-  St WriteN(const void* p, size_t n) override {
-    const uint8_t* b = static_cast<const uint8_t*>(p);
-    return w->Write(b, b + n);
-  }
+  St WriteN(const void* p, size_t n, size_t width) override { return TypedWrite(*w, p, n, width); }
   St Skip(size_t n, uint8_t pad) override { return SkipImpl(n, pad, std::integral_constant<bool, kHasSkip>{}); }
   bool HasSkip() const override { return kHasSkip; }
   long long ReportedSize() const override { return SizeImpl(std::integral_constant<bool, kHasSize>{}); }
@@ -377,10 +405,7 @@ struct WBounded : WImpl {
   WBounded(Inner* in, size_t limit) : inner(in), b(in, limit) {}
   St Prepare(size_t n) override { return b.Prepare(n); }
   St Write1(uint8_t v) override { return b.Write(v); }
-  St WriteN(const void* p, size_t n) override {
-    const uint8_t* q = static_cast<const uint8_t*>(p);
-    return b.Write(q, q + n);
-  }
+  St WriteN(const void* p, size_t n, size_t width) override { return TypedWrite(b, p, n, width); }
   St Skip(size_t n, uint8_t pad) override { return SkipImpl(n, pad, std::integral_constant<bool, kHasSkip>{}); }
   St WritePadding(uint8_t pad) override { return PadImpl(pad, std::integral_constant<bool, kHasSkip>{}); }
   bool HasSkip() const override { return kHasSkip; }
@@ -441,7 +466,7 @@ class DynWriter {
     St st;
     if (Pre("wn", nbytes, &st)) return st;
     if (Guard(nbytes)) return Post(St{}, nbytes);
-    st = impl_->WriteN(static_cast<const void*>(begin), nbytes);
+    st = impl_->WriteN(static_cast<const void*>(begin), nbytes, WidthOf<T>());
     if (st) {
       const uint8_t* b = reinterpret_cast<const uint8_t*>(begin);
       attempted.insert(attempted.end(), b, b + nbytes);
@@ -551,6 +576,7 @@ class DynWriter {
   std::unique_ptr<nop::ConstexprBufferWriter> in_constexpr_;
   std::unique_ptr<nop::StreamWriter<std::stringstream>> in_stream_;
   std::unique_ptr<nop::FdWriter> in_fd_;
+  int flaky_fd_ = -1;
   uint8_t* heap_ = nullptr;
   uint64_t cap_ = 0;
   uint64_t guard_ = 0;
